@@ -49,7 +49,7 @@ def _cases() -> List[dict]:
 
 def plan(tier: str) -> dict:
     return {
-        "runs": 16000 if tier == "quick" else 200000,
+        "runs": 16000 if tier == "quick" else 900000,
         "budget": 150 if tier == "quick" else 900,
         "cases": _cases(),
         "chunk": 30,
